@@ -17,7 +17,8 @@ B_PRO_A64 = ('dirty masks of x0-x30 and v0-v31 symbolic (all 2^32 values); local
 def HA(fn, what, known=None, unwind=33, mem=6, timeout=1200, tiers=('quick', 'thorough')):
     A64P = '_ZN6asmjit5v1_213a6410EmitHelper11emit_prologERKNS0_9FuncFrameE'; A64E = '_ZN6asmjit5v1_213a6410EmitHelper11emit_epilogERKNS0_9FuncFrameE'; PEI = '_ZN6asmjit5v1_213a6416PrologEpilogInfo4initERKNS0_9FuncFrameE'
     # library loops: pair loops (AAPCS64: at most 7 GP and 4 vector pairs; light-call: 14 and 14), mask iteration in PrologEpilogInfo::init (13 / 28 registers)
-    pairs, regs = (4, 6) if ('small' in fn or 'C07C' in fn or 'C07D' in fn) else (8, 14) if ('light' not in fn and 'C07E' not in fn) else (15, 29)
+    pairs, regs = (4, 6) if ('small' in fn or 'C07C' in fn or 'C07D' in fn) else (8, 14)
+    if 'light' in fn or 'C07E' in fn: pairs, regs = (12, 22)   # light-call also preserves x4-x17: up to 18 + 5 dirty GP registers in the slice
     us = ','.join('%s.%d:%d' % (f, i, pairs) for f in (A64P, A64E) for i in range(4)) + ',%s.0:%d,%s.1:%d' % (PEI, regs, PEI, regs)
     return Harness('prolog_a64', fn, unwind=unwind, unwindset=us, bounds=what + '; ' + B_PRO_A64, known=known, mem_gb=mem, timeout=timeout, tiers=tiers)
 B_FRAME = ('every convention id valid for the arch (real CallConv::init); dirty masks of all 4 groups: all 2^32 values each; local and call stack size 0..65536; '
@@ -38,9 +39,9 @@ HARNESSES = [
     HP('h_prolog_x86_kf_C07A', 'x86-32 cdecl, region of known finding C07A', gp=6, vec=1, known='C07A'),
     HP('h_prolog_x64_win', 'Win64 (xmm6-15 callee-saved)', gp=10, vec=11, mem=8, timeout=2400, tiers=('thorough',)),
     HP('h_prolog_x64_vectorcall', 'x86-64 vectorcall (xmm6-15 callee-saved)', gp=10, vec=11, mem=8, timeout=2400, tiers=('thorough',)),
-    HP('h_prolog_x64_custom', 'x86-64 with a user-defined convention that also preserves symbolic sets of xmm, k and mm registers', gp=8, vec=17, mem=8, timeout=2400, tiers=('thorough',)),
+    HP('h_prolog_x64_custom', 'x86-64 with a user-defined convention that also preserves symbolic sets of xmm, k and mm registers', gp=8, vec=17, mem=8, timeout=4800, tiers=('thorough',)),
     HP('h_prolog_x64_kf_C07B', 'region of known finding C07B (user-defined convention preserving k registers)', gp=8, vec=17, mem=8, timeout=2400, known='C07B', tiers=('thorough',)),
-    HP('h_prolog_x64_light3', 'x86-64 light-call 3 (all GP and most xmm registers callee-saved)', gp=17, vec=17, mem=8, timeout=2400, tiers=('thorough',)),
+    HP('h_prolog_x64_light3', 'x86-64 light-call 3 (all GP and most xmm registers callee-saved)', gp=17, vec=17, mem=8, timeout=4800, tiers=('thorough',)),
     HP('h_prolog_x86_light2', 'x86-32 light-call 2', gp=9, vec=9, mem=8, timeout=2400, tiers=('thorough',)),
     HA('h_prolog_a64_aapcs_small', 'AAPCS64 (Linux), quick slice: dirty registers within x19-x21, x29, x30, d8-d10 (plus any caller-saved register)'),
     HA('h_prolog_a64_apple_small', 'Apple arm64, quick slice: dirty registers within x19-x21, x29, x30, d8-d10 (plus any caller-saved register)'),
@@ -48,11 +49,11 @@ HARNESSES = [
     HA('h_prolog_a64_kf_C07D', 'AAPCS64 quick slice, region of known finding C07D (preserved FP)', known='C07D'),
     HA('h_prolog_a64_aapcs', 'AAPCS64 (Linux)', mem=8, timeout=3000, tiers=('thorough',)),
     HA('h_prolog_a64_apple', 'Apple arm64', mem=8, timeout=3000, tiers=('thorough',)),
-    HA('h_prolog_a64_light', 'AArch64 light-call 2 (x4-x30 and v4-v31 callee-saved, 16-byte vector slots)', mem=8, timeout=3000, tiers=('thorough',)),
-    HA('h_prolog_a64_kf_C07E', 'AArch64 light-call 2, region of known finding C07E', known='C07E', mem=8, timeout=3000, tiers=('thorough',)),
+    HA('h_prolog_a64_light_small', 'AArch64 light-call 2 (16-byte vector slots), slice: dirty registers within x19-x21, x29, x30, d8-d10 plus x0-x17', timeout=2400, tiers=('thorough',)),
+    HA('h_prolog_a64_kf_C07E', 'AArch64 light-call 2, same slice, region of known finding C07E (odd number of saved vector registers)', known='C07E', timeout=2400, tiers=('thorough',)),
 ]
 EXPLANATION = 'bounded symbolic execution (CBMC) of the real FuncFrame::init/finalize and of the real x86/a64 emit_prolog/emit_epilog driving a model machine defined in the harness'
-OUTSIDE = ['BaseRAPass::update_stack_frame hand-over (needs a Compiler run)', 'local/call stack sizes above 64 KiB',
+OUTSIDE = ['H2 AArch64 light-call with all 2^32 dirty masks (h_prolog_a64_light / full C07E companion: no verdict within 3000 s - replaced by the slice harnesses)', 'BaseRAPass::update_stack_frame hand-over (needs a Compiler run)', 'local/call stack sizes above 64 KiB',
            'H2: local and call stack sizes that are not whole machine words; xmm16-xmm31 (AVX-512 light-call frames); the red zone and the Win64 home area are not written by the body',
            'H2 AArch64 quick tier: dirty callee-saved registers outside x19-x21, x29, x30, d8-d10 (all masks in the thorough tier)']
 ASSUMPTIONS = ['FuncDetail fields other than the calling convention record (used registers, stack argument size) are set directly to symbolic values of the shape FuncDetail::init produces',
